@@ -275,6 +275,7 @@ type Exec struct {
 	pendingBound int64
 	ivals        map[*smt.Term]ival
 	facts        map[*smt.Term]bool
+	rangeMemo    map[*smt.Term]ival
 	QuickDecided int
 	digestIdx    int
 	digestMod    uint64
@@ -331,6 +332,8 @@ func (ex *Exec) freshVar(prefix string, w uint8) *smt.Term {
 	ex.varCount++
 	return ex.ctx.Var(fmt.Sprintf("%s#%d", prefix, ex.varCount), w)
 }
+
+var noQuick = os.Getenv("GOSX_NOQUICK") != ""
 
 func (ex *Exec) assume(t *smt.Term) {
 	if t.IsTrue() {
@@ -397,7 +400,7 @@ func (ex *Exec) feasible(t *smt.Term) bool {
 	if ex.modelOK && smt.Eval(t, ex.model, map[*smt.Term]uint64{}) == 1 {
 		return true
 	}
-	if known, val := ex.quick(t); known {
+	if known, val := ex.quick(t); known && !noQuick {
 		ex.QuickDecided++
 		return val
 	}
@@ -421,10 +424,17 @@ func (ex *Exec) branch(c *smt.Term) bool {
 		// inside a speculated side: a branch that is decided by the path
 		// condition and the side's guards is simply followed
 		g := ex.guardTerm()
-		if !ex.feasible(ex.ctx.And(g, c)) {
+		canT := ex.feasible(ex.ctx.And(g, c))
+		canF := ex.feasible(ex.ctx.And(g, ex.ctx.Not(c)))
+		switch {
+		case !canT && !canF:
+			// the side itself cannot be taken under the path condition: nothing
+			// executed in it means anything (a "forced" outcome here once turned
+			// into a spurious out-of-range panic); let the real branch decide
+			panic(specAbort{"infeasible side at " + ex.site()})
+		case !canT:
 			return false
-		}
-		if !ex.feasible(ex.ctx.And(g, ex.ctx.Not(c))) {
+		case !canF:
 			return true
 		}
 		if os.Getenv("GOSX_SPECDEBUG") != "" {
